@@ -275,3 +275,65 @@ Example ex_tool_history :
   map (fun c => (rounds (c_trace c), completions (c_trace c), c_loglen c)) (fst r) =
     [(2%nat, 1%nat, 1%nat); (2%nat, 0%nat, 2%nat)].
 Proof. vm_compute. repeat split. Qed.
+
+(* ---- a long-lived swarm object ------------------------------------------------ *)
+(* 12 consecutive failing supervise() calls on ONE swarm, max_regenerations = 3, every
+   worker stuck: each call spawns exactly 4 workers although the object has by then
+   accumulated up to 44 worker deaths; the counter and the shared logs only grow
+   (4 apoptosis and 3 regeneration events per call) *)
+Definition ex_obj_runs (n : nat) (o : sobj) :=
+  swarm_obj_runs (fun (e : nat) (_ : nat) (_ : unit) => (e, true))
+                 (fun (e : nat) (_ : nat) => (S e, WOut 7 false))
+                 (fun _ _ => tt) (fun e _ => e) tt (1 # 2) 3 10 n o 0%nat.
+Definition ex_obj_after (x : sobj * swarm_result * list (wrece unit) * sobj) : sobj := snd x.
+Definition ex_obj_res (x : sobj * swarm_result * list (wrece unit) * sobj) : swarm_result :=
+  snd (fst (fst x)).
+
+Example ex_swarm_long_lived :
+  let rs := ex_obj_runs 12 sobj0 in
+  map (fun x => length (s_workers (ex_obj_res x))) rs = repeat 4%nat 12 /\
+  map (fun x => s_success (ex_obj_res x)) rs = repeat false 12 /\
+  map (fun x => so_counter (ex_obj_after x)) rs =
+    [4; 8; 12; 16; 20; 24; 28; 32; 36; 40; 44; 48]%nat /\
+  map (fun x => length (so_ap (ex_obj_after x))) rs =
+    [4; 8; 12; 16; 20; 24; 28; 32; 36; 40; 44; 48]%nat /\
+  map (fun x => length (so_rg (ex_obj_after x))) rs =
+    [3; 6; 9; 12; 15; 18; 21; 24; 27; 30; 33; 36]%nat.
+Proof. vm_compute. repeat split. Qed.
+
+(* ... and from an object that arrives with 400 recorded deaths and counter 900 *)
+Example ex_swarm_aged_object :
+  let o := mkSObj 900 (repeat (0%nat, 3%nat) 400) (repeat (0%nat, 1%nat) 300) in
+  let rs := ex_obj_runs 2 o in
+  map (fun x => map w_idx (s_workers (ex_obj_res x))) rs =
+    [[900; 901; 902; 903]; [904; 905; 906; 907]]%nat /\
+  map (fun x => length (so_ap (ex_obj_after x))) rs = [404; 408]%nat.
+Proof. vm_compute. repeat split. Qed.
+
+(* ---- provider exceptions carry their class -------------------------------------- *)
+(* a TRANSIENT outage in the middle of the conversation: the provider requests tools twice,
+   raises an exception of class 2 (ProviderUnavailableError) at its third invocation and
+   would go on requesting tools afterwards.  The activation (max_iterations = 3) ends
+   there: 3 provider invocations (the failed one included), 2 rounds executed, no
+   completion, the caller sees class 2; a second call on the same nucleus then gets its
+   own 3 rounds from the recovered provider *)
+Definition ex_flaky : pbeh := PScript [PI 1 [0]; PI 1 [0]; PIRaise 2] (PI 1 [0]).
+Example ex_tool_transient_outage :
+  let r := run_calls (interp_with_tools ex_flaky) (interp_complete_st (CAff 100))
+             (interp_tool_pre [KOk] 0) (interp_tool_post [KOk])
+             true true 8%nat (0%nat, 0%nat) [] 0 [(3, true); (3, true)] in
+  map (fun c => (rounds (c_trace c), execs (c_trace c), completions (c_trace c), c_final c)) (fst r) =
+    [(3%nat, 2%nat, 0%nat, TProviderRaised 2); (3%nat, 3%nat, 1%nat, TReturned (100 + 1 + 2 * 1 + 7 * 1))].
+Proof. vm_compute. repeat split. Qed.
+
+(* the hypothesis of raise_ok is met non-trivially: the final plain completion raises class 3 *)
+Example ex_tool_final_completion_raises :
+  let r := transcribe_with_tools (interp_with_tools ex_forever) (interp_complete_st (CRaiseFinal 3))
+             (interp_tool_pre [KOk; KBoom] 0) (interp_tool_post [KOk; KBoom]) true true
+             8%nat (0%nat, 0%nat) [] 0 2 true in
+  snd r = TProviderRaised 3 /\ rounds (ex_trace r) = 2%nat /\ completions (ex_trace r) = 1%nat /\
+  raised_by_last (interp_with_tools ex_forever) (interp_complete_st (CRaiseFinal 3)) 3 (ex_trace r).
+Proof.
+  split; [vm_compute; reflexivity|]. split; [vm_compute; reflexivity|]. split; [vm_compute; reflexivity|].
+  vm_compute. exists (0%nat, 0%nat). reflexivity.
+Qed.
